@@ -24,6 +24,7 @@ mod rtrwire;
 mod sigobj;
 mod rtrsession;
 mod slurm;
+mod taltext;
 mod urialg;
 mod x509time;
 
@@ -58,6 +59,7 @@ fn main() {
         ("replay", "caxml") => caxml::replay(rest),
         ("drive", "caxml") => caxml::drive(rest),
         ("replay", "decoders") => decoders::replay(rest),
+        ("replay", "taltext") => taltext::replay(rest),
         ("drive", "decoders") => decoders::drive(rest),
         ("replay", "sigobj") => sigobj::replay(rest),
         ("replay", "cmsmsg") => cmsmsg::replay(rest),
